@@ -245,8 +245,14 @@ fn id(
     node: dom::XmlNode,
     _: &mut model::Context,
 ) -> error::Result<model::Value> {
-    if node.owner_document().map(|v| v.doc_type()).is_some() {
-        unimplemented!()
+    // without a document type no attribute is of type ID: the set is empty. With one, ID
+    // attributes are not supported yet: report that instead of panicking.
+    let document = match &node {
+        dom::XmlNode::Document(v) => Some(v.clone()),
+        v => v.owner_document(),
+    };
+    if document.and_then(|v| v.doc_type()).is_some() {
+        Err(error::Error::NotFoundFunction("id".to_string()))
     } else {
         Ok(model::Value::Node(vec![]))
     }
